@@ -209,6 +209,14 @@ class C12(PropertyCheck):
                   ('turbofish', 'fn foo(x: int, y: int ?= 2) -> int { x }\nlet z = foo{$,$,$}(1, 2);'), ('turbofish', 'fn foo<T>(x: T) -> T { x }\nlet z = foo{$}(1);\nfn c0() -> int { z }'),
                   ('forward', 'fn outer() -> int {\nforward fn a(x: int) -> int;\nforward fn b(x: int) -> int;\nfn inner() -> int { a(1) + b(2) }\ninner()\n}'),
                   ('forward', 'fn outer() -> int {\nforward fn b(x: int) -> int;\nforward fn a(x: int) -> int;\nforward fn c(x: str) -> int;\nfn inner() -> int { c("x") + a(1) + b(2) }\nfn a(x: int) -> int { x }\ninner()\n}')] * 3
+        # iteration order of hashed containers, and messages that quote them, must be the same in every process
+        for n_ in (3, 5, 9, 17):
+            ks = [((7 * i * i + 3 * i) % 1000) for i in range(n_)]
+            mp = 'mapping<int>()' + ''.join(f'.set({k_}, {i})' for i, k_ in enumerate(ks))
+            st = 'set<int>()' + ''.join(f'.add({k_})' for k_ in ks)
+            texts += [('hashed-iteration', f'fn c0() -> str {{ to_str({mp}.keys().to_array()) }}\nfn c1() -> str {{ to_str({st}.to_array()) }}\nfn c2() -> str {{ to_str({mp}.to_generator().to_array()) }}'),
+                      ('hashed-iteration', f'fn c0() -> bool {{ assert({mp} == {mp}.set(1000001, 1)) }}\nfn c1() -> str {{ to_str({mp}) }}\nfn c2() -> str {{ to_str({st}) }}'),
+                      ('hashed-iteration', f'fn c0() -> str {{ to_str([{", ".join(str(k_ % 7) for k_ in ks)}].to_generator().with_count().to_array()) }}\nfn c1() -> str {{ to_str([{", ".join(str(k_ % 7) for k_ in ks)}].to_generator().distinct().to_array()) }}')]
         for _ in range(20 if tier == 'quick' else 200):
             decls, obs = gen_program(rng, nobs=3, err_rate=0.05, depth=3)
             texts.append(('generated', '\n'.join(d.xr() for d in decls)))
@@ -226,13 +234,16 @@ class C12(PropertyCheck):
         for n_, k in enumerate(hist_idx):
             seq_jobs.append(dict(jobs2[len(jobs2) - 1 - k] if False else jobs2[k], id=f'q{n_}'))
         rs = core.run_harness(ctx['binary'], seq_jobs, os.path.join(workdir, 'h3'), timeout=900, single_timeout=30, shards=1)
+        viol = lambda r_: str(r_.get('inst', '')).startswith('viol:') or any(str(c_).startswith(('X:', 'H:')) for c_ in (r_.get('calls') or []))
         for n_, k in enumerate(hist_idx):
             a, q = r1.get(f't{k}'), rs.get(f'q{n_}')
             n_eval += 1
             if a is None or q is None:
                 continue
             diff = [x for x in ['compile', 'inst', 'calls', 'stdout'] if a.get(x) != q.get(x)]
-            if diff and not any('Timeout' in str(a.get(x)) + str(q.get(x)) for x in diff):
+            if viol(a) or viol(q):
+                diff = [x for x in diff if x == 'compile']
+            if diff:
                 violations.append({'what': 'the outcome of compiling a text depends on what was compiled (and rejected) earlier in the same process',
                                    'case': {'src': texts[k][1], 'origin': texts[k][0], 'history': [texts[j][0] for j in hist_idx[max(0, n_ - 3):n_]]},
                                    'impl': {x: [str(a.get(x))[:300], str(q.get(x))[:300]] for x in diff}})
@@ -259,8 +270,12 @@ class C12(PropertyCheck):
                 continue
             keys = ['compile', 'inst', 'calls', 'stdout']
             diff = [x for x in keys if a.get(x) != b.get(x)]
-            # wall-clock limits are not deterministic: ignore results that ended in a timeout
-            if diff and not any('Timeout' in str(a.get(x)) + str(b.get(x)) for x in keys):
+            # the two processes run under different limits on purpose: where either run ended in a violation (limits are
+            # the host's input, not the source's) the behaviour is not compared; compilation always is
+            viol = lambda r_: str(r_.get('inst', '')).startswith('viol:') or any(str(c_).startswith(('X:', 'H:')) for c_ in (r_.get('calls') or []))
+            if viol(a) or viol(b):
+                diff = [x for x in diff if x == 'compile']
+            if diff:
                 violations.append({'what': 'the outcome of compiling a text (acceptance, error text, behaviour of the compiled program) depends on what was compiled before in the process or on the limits',
                                    'case': case, 'impl': {x: [str(a.get(x))[:300], str(b.get(x))[:300]] for x in diff}})
                 continue
